@@ -321,7 +321,7 @@ fn fam_sized<E: Shape>(cx: &mut Ctx, p: &ByteCase) {
             }
             lib!(drop(h))
         }
-        8 => match lib!(Arc::try_unwrap(a)) {
+        8 => match { let lm = viol::count_clause("F.layout-mismatch"); let r = lib!(Arc::try_unwrap(a)); if viol::count_clause("F.layout-mismatch") > lm { viol::report(&["C09"], "X.release-layout", format!("{}: try_unwrap released the block with a layout different from the one it was requested with", cx.what)); } r } {
             Ok(v) => {
                 if nclones != 0 || !v.ok(dseed) {
                     viol::report(&["C09", "C05"], "X.try-unwrap", format!("{}: try_unwrap succeeded with {} clones / wrong value", cx.what, nclones));
@@ -336,7 +336,11 @@ fn fam_sized<E: Shape>(cx: &mut Ctx, p: &ByteCase) {
         },
         9 => match lib!(Arc::try_unique(a)) {
             Ok(u) => {
+                let lm = viol::count_clause("F.layout-mismatch");
                 let v = lib!(UniqueArc::into_inner(u));
+                if viol::count_clause("F.layout-mismatch") > lm {
+                    viol::report(&["C09"], "X.release-layout", format!("{}: UniqueArc::into_inner released the block with a layout different from the one it was requested with", cx.what));
+                }
                 if !v.ok(dseed) {
                     viol::report(&["C09", "C05"], "X.into-inner", format!("{}: into_inner returned wrong contents", cx.what));
                 }
@@ -1062,6 +1066,7 @@ impl MatrixEngine {
         let fams = match prop {
             "C12" => vec![4],
             "C11" => vec![0, 0, 0, 1, 2, 2, 3, 5],
+            "C09" => vec![0],
             _ => vec![0, 1, 2, 3, 4, 5],
         };
         MatrixEngine { prop, fams }
